@@ -1,6 +1,6 @@
 SPECIFICATION Spec
 CONSTANTS
-  Vals = {1}
+  Vals = {9}
   Default = 0
   MaxLen = 3
   ResizeNs = {0, 2, 3}
@@ -8,4 +8,5 @@ CONSTANTS
   AllocBelow = 1
   AllocAbove = 1
   ByteSized = TRUE
+  Lifetime = FALSE
 INVARIANTS TypeOK Bounded LastAgrees
